@@ -188,6 +188,51 @@ def build_obligation(inst):
                 got.append(result_cells(r, env)[()])
             return [(got, exp)]
         return ob
+    if kind == "align_tensors":
+        # two eager Tensors with the same named inputs stored in different orders, combined by a binary op / matmul
+        # (the operands have to be re-aligned by name, never by position)
+        _, sizes, perm, opname, via = inst
+
+        def ob(mk):
+            import funsor.ops as ops
+            from funsor import Bint, Tensor
+            from funsor.tensor import align_tensors
+            from harness.core import result_cells
+            from lang import cellops as C
+            names = ["a", "b", "c"][: len(sizes)]
+            ev = (2, 2) if opname == "matmul" else ()
+            X = mk.array("x", tuple(sizes) + ev, "real")
+            psizes = tuple(sizes[i] for i in perm)
+            Y = mk.array("y", psizes + ev, "real")
+            t = Tensor(X, OrderedDict((n, Bint[s_]) for n, s_ in zip(names, sizes)))
+            u = Tensor(Y, OrderedDict((names[i], Bint[sizes[i]]) for i in perm))
+            if via == "align":          # bring u to t's order explicitly first, then back to its own
+                u = u.align(tuple(names)).align(tuple(names[i] for i in perm))
+            if via == "align_tensors":
+                inputs, (xd, yd) = align_tensors(t, u)
+                r = Tensor(ops.matmul(xd, yd) if opname == "matmul" else getattr(ops, opname)(xd, yd), inputs)
+            else:
+                r = ops.matmul(t, u) if opname == "matmul" else getattr(ops, opname)(t, u)
+            xa, ya = X.view(np.ndarray), Y.view(np.ndarray)
+            got, exp = [], []
+            for pt in itertools.product(*(range(n) for n in sizes)):
+                env = dict(zip(names, pt))
+                ppt = tuple(pt[i] for i in perm)
+                cells = result_cells(r, env)
+                if opname == "matmul":
+                    for i in range(2):
+                        for j in range(2):
+                            acc = None
+                            for k in range(2):
+                                term = C.BINARY["mul"](xa[pt + (i, k)], ya[ppt + (k, j)])
+                                acc = term if acc is None else C.BINARY["add"](acc, term)
+                            exp.append(acc)
+                            got.append(cells[i, j])
+                else:
+                    exp.append(C.BINARY[opname](xa[pt], ya[ppt]))
+                    got.append(cells[()])
+            return [(got, exp)]
+        return ob
     raise ValueError(kind)
 
 
@@ -426,6 +471,10 @@ def instances(tier, seed):
         for opname in ("sub", "truediv", "add", "lt", "pow") if tier != "quick" else ("sub", "truediv", "add"):
             for side in ("left", "right"):
                 out.append(("align_binary", sizes, perm, opname, side))
+    for sizes, perm in [((2, 3), (1, 0)), ((2, 2), (1, 0)), ((2, 3, 2), (2, 0, 1)), ((2, 2, 2), (1, 0, 2)), ((2, 3), (0, 1))]:
+        for opname in ("sub", "matmul"):
+            for via in ("direct", "align", "align_tensors"):
+                out.append(("align_tensors", sizes, perm, opname, via))
     # Engine B: bookkeeping with unbounded symbolic sizes
     for rank, event_rank in [(1, 0), (2, 0), (2, 1), (3, 1), (3, 0), (4, 1), (4, 2)] + ([(5, 1), (5, 2)] if tier != "quick" else []):
         batch = rank - event_rank
